@@ -4,7 +4,7 @@ Re-execution based forking: every path is run from the entry following a decisio
 import sys, struct, time, bisect, json, os
 import z3
 from .ir2c import (parse_module, lex, P, parse_type, parse_const, parse_type_base, skip_param_attrs, uq,
-                  Unsupported, Void, Int, Flt, Ptr, Arr, Named, Lit, Fn, PARAM_ATTRS)
+                  Unsupported, Void, Int, Flt, Ptr, Arr, Vec, Named, Lit, Fn, PARAM_ATTRS)
 
 class Violation(Exception):
     def __init__(s, msg, kind='assert', model=None):
@@ -42,6 +42,8 @@ class Layout:
             return b, b, None
         if isinstance(t, Flt): return (4, 4, None) if t.k == 'float' else (8, 8, None)
         if isinstance(t, (Ptr, Fn)): return 8, 8, None
+        if isinstance(t, Vec):
+            sz, al, _ = s.sa(t.e); return sz * t.n, sz * t.n, None
         if isinstance(t, Arr):
             sz, al, _ = s.sa(t.e); return sz * t.n, al, None
         if isinstance(t, Lit):
@@ -491,6 +493,10 @@ class Interp:
             sv = s.typed(p); p.expect('to'); dt = parse_type(p); return ('cast', dst, op, sv, dt)
         if op == 'freeze':
             v = s.typed(p); return ('copy', dst, v)
+        if op == 'extractelement':
+            v = s.typed(p); p.expect(','); i = s.typed(p); return ('extractelement', dst, v, i)
+        if op == 'insertelement':
+            v = s.typed(p); p.expect(','); e = s.typed(p); p.expect(','); i = s.typed(p); return ('insertelement', dst, v, e, i)
         if op == 'extractvalue':
             v = s.typed(p); path = []
             while p.accept(','): path.append(int(p.next()[1]))
@@ -565,11 +571,7 @@ class Interp:
                         if s.trace_mem is not None: s.trace_mem.append(('r', a, s.L.size(t)))
                         if isinstance(t, (Arr, Lit)): env[it[1]] = s.load_agg(a, t)
                         else:
-                            v = mem.load(a, s.L.size(t))
-                            if isinstance(t, Flt) and isinstance(v, int): v = s.cast('bitcast', v, Int(32 if t.k == 'float' else 64), t)
-                            elif isinstance(t, Int) and isinstance(v, float): v = int.from_bytes(struct.pack('<f' if t.n == 32 else '<d', v), 'little')
-                            elif isinstance(t, Int) and t.n == 1 and isinstance(v, int): v &= 1
-                            env[it[1]] = v
+                            env[it[1]] = s.load_scalar(a, t)
                     elif op == 'store':
                         a = s.val(env, it[2]); t = s.L.res(it[1].ty); v = s.val(env, it[1])
                         if not isinstance(a, int):
@@ -651,6 +653,14 @@ class Interp:
                         agg = copy.deepcopy(s.val(env, it[2])); v = s.val(env, it[3]); tgt = agg
                         for k in it[4][:-1]: tgt = tgt[k]
                         tgt[it[4][-1]] = v; env[it[1]] = agg
+                    elif op == 'extractelement':
+                        v = s.val(env, it[2]); i = s.val(env, it[3])
+                        if not isinstance(i, int): raise Unsupported('symbolic vector index')
+                        env[it[1]] = v[i]
+                    elif op == 'insertelement':
+                        v = list(s.val(env, it[2])); i = s.val(env, it[4])
+                        if not isinstance(i, int): raise Unsupported('symbolic vector index')
+                        v[i] = s.val(env, it[3]); env[it[1]] = v
                     elif op == 'unreachable':
                         raise Violation('unreachable executed in ' + name)
                     else:
@@ -660,14 +670,21 @@ class Interp:
         finally:
             for o in frame_objs: o.alive = False
 
+    def load_scalar(s, a, t):
+        v = s.mem.load(a, s.L.size(t))
+        if isinstance(t, Flt) and isinstance(v, int): v = s.cast('bitcast', v, Int(32 if t.k == 'float' else 64), t)
+        elif isinstance(t, Int) and isinstance(v, float): v = int.from_bytes(struct.pack('<f' if t.n == 32 else '<d', v), 'little')
+        elif isinstance(t, Int) and t.n == 1 and isinstance(v, int): v &= 1
+        return v
+
     def load_agg(s, a, t):
         if isinstance(t, Arr):
             es = s.L.size(t.e); et = s.L.res(t.e)
-            return [s.load_agg(a + i * es, et) if isinstance(et, (Arr, Lit)) else s.mem.load(a + i * es, es) for i in range(t.n)]
+            return [s.load_agg(a + i * es, et) if isinstance(et, (Arr, Lit)) else s.load_scalar(a + i * es, et) for i in range(t.n)]
         offs = s.L.sa(t)[2]; out = []
         for f, o in zip(t.fs, offs):
             ft = s.L.res(f)
-            out.append(s.load_agg(a + o, ft) if isinstance(ft, (Arr, Lit)) else s.mem.load(a + o, s.L.size(ft)))
+            out.append(s.load_agg(a + o, ft) if isinstance(ft, (Arr, Lit)) else s.load_scalar(a + o, ft))
         return out
 
     def store_agg(s, a, t, v):
@@ -739,6 +756,26 @@ class Interp:
                     if f == 'umin': return min(x, a[1])
                     if f == 'ctlz': return n - x.bit_length()
                     if f == 'cttz': return n if x == 0 else (x & -x).bit_length() - 1
+            import re as _re
+            mo = _re.match(r'llvm\.(sadd|ssub|smul|uadd|usub|umul)\.with\.overflow\.i(\d+)', name)
+            if mo:
+                opn, n = mo.group(1), int(mo.group(2)); M = (1 << n) - 1
+                x, y = a[0], a[1]
+                if x is UNDEF or y is UNDEF: return [UNDEF, UNDEF]
+                if isinstance(x, int) and isinstance(y, int):
+                    sg = lambda v: v - (1 << n) if v >> (n - 1) else v
+                    if opn[0] == 's':
+                        r = {'sadd': sg(x) + sg(y), 'ssub': sg(x) - sg(y), 'smul': sg(x) * sg(y)}[opn]
+                        return [r & M, int(not (-(1 << (n - 1)) <= r < (1 << (n - 1))))]
+                    r = {'uadd': x + y, 'usub': x - y, 'umul': x * y}[opn]
+                    return [r & M, int(not (0 <= r <= M))]
+                X = x if not isinstance(x, int) else z3.BitVecVal(x, n); Y = y if not isinstance(y, int) else z3.BitVecVal(y, n)
+                if opn == 'sadd': return [X + Y, z3.Not(z3.And(z3.BVAddNoOverflow(X, Y, True), z3.BVAddNoUnderflow(X, Y)))]
+                if opn == 'ssub': return [X - Y, z3.Not(z3.And(z3.BVSubNoOverflow(X, Y), z3.BVSubNoUnderflow(X, Y, True)))]
+                if opn == 'smul': return [X * Y, z3.Not(z3.And(z3.BVMulNoOverflow(X, Y, True), z3.BVMulNoUnderflow(X, Y)))]
+                if opn == 'uadd': return [X + Y, z3.Not(z3.BVAddNoOverflow(X, Y, False))]
+                if opn == 'usub': return [X - Y, z3.ULT(X, Y)]
+                return [X * Y, z3.Not(z3.BVMulNoOverflow(X, Y, False))]
             if name.startswith(('llvm.trap', 'llvm.ubsantrap')):
                 from .ir2c import UBSAN_KINDS
                 kind = UBSAN_KINDS.get(a[0], str(a[0])) if name.startswith('llvm.ubsantrap') and a and isinstance(a[0], int) else 'llvm.trap'
@@ -849,6 +886,7 @@ class Interp:
         if name == 'irsym_logs_equal':
             return 1 if sorted(s.logs.get(a[0], [])) == sorted(s.logs.get(a[1], [])) else 0
         if name == 'irsym_log_count':
+            if a[1] >= 1000: return sum(1 for e in s.logs.get(a[0], []) if e[0] in (2, 3, 4) and e[1] < a[1] - 1000)
             return sum(1 for e in s.logs.get(a[0], []) if e[0] == a[1])
         if name == 'irsym_log_clear':
             s.logs[a[0]] = []; return None
